@@ -275,18 +275,27 @@ abbrev Scan := Bytes → PState → Option Bytes × PState
 /-- on empty input a scanner makes no progress and leaves nothing -/
 def NoProgressOnEmpty (H : Scan) : Prop := ∀ x : PState, (H [] x).2.ib = x.ib ∧ EndsEmpty (H [] x).1
 
-/-- **sequencing**: `F = G ; H` (run `G`, on success continue with `H` on the rest) -/
-theorem seq_law (G H F : Scan)
-    (hF : ∀ b s, F b s = match G b s with
-      | (some r1, s1) => H r1 s1
-      | (none, s1) => (none, s1))
+theorem consumed_take (b r1 : Bytes) (k : Nat) (h1 : r1.length ≤ b.length) (hk : b.length - r1.length ≤ k) :
+    consumed (b.take k) (r1.take (k - (b.length - r1.length))) = consumed b r1 := by
+  unfold consumed
+  simp only [List.length_take, List.take_take]
+  congr 1
+  omega
+
+/-- **sequencing**: `F = G ; H` on every cut of `b` (run `G`, on success continue with `H` on
+    the rest; `H` may also look at the bytes `G` consumed; on failure only non-`ib` fields change) -/
+theorem seq_law (G : Scan) (H : Bytes → Scan) (g : PState → PState) (F : Scan)
+    (hg : ∀ x, (g x).ib = x.ib)
     (b : Bytes) (s : PState) (r1 : Bytes) (s1 : PState) (r : Bytes) (s' : PState)
-    (hG : G b s = (some r1, s1)) (lG : PrefixLaw G b s r1 s1)
-    (hH : H r1 s1 = (some r, s')) (lH : PrefixLaw H r1 s1 r s') (hE : NoProgressOnEmpty H) :
-    F b s = (some r, s') ∧ PrefixLaw F b s r s' := by
+    (hF : ∀ k, F (b.take k) s = match G (b.take k) s with
+      | (some r1', s1') => H (consumed (b.take k) r1') r1' s1'
+      | (none, s1') => (none, g s1'))
+    (lG : PrefixLaw G b s r1 s1)
+    (lH : PrefixLaw (H (consumed b r1)) r1 s1 r s') (hE : ∀ tag, NoProgressOnEmpty (H tag)) :
+    PrefixLaw F b s r s' := by
   obtain ⟨g1, g2, g3⟩ := lG
   obtain ⟨h1, h2, h3⟩ := lH
-  refine ⟨by rw [hF, hG]; exact hH, by omega, by omega, ?_⟩
+  refine ⟨by omega, by omega, ?_⟩
   intro k
   constructor
   · intro hk
@@ -297,30 +306,43 @@ theorem seq_law (G H F : Scan)
       obtain ⟨o, x⟩ := res
       simp only at a1 a2
       rcases a2 with rfl | rfl
-      · exact ⟨a1, Or.inl rfl⟩
+      · exact ⟨by simp only [hg]; exact a1, Or.inl rfl⟩
       · simp only
-        obtain ⟨e1, e2⟩ := hE x
+        obtain ⟨e1, e2⟩ := hE (consumed (b.take k) []) x
         exact ⟨by rw [e1, a1], e2⟩
     · have hk1' : b.length - r1.length ≤ k := by omega
       rw [hF, (g3 k).2 hk1']
       simp only
+      rw [consumed_take b r1 k g1 hk1']
       obtain ⟨a1, a2⟩ := (h3 (k - (b.length - r1.length))).1 (by omega)
       exact ⟨by rw [a1]; omega, a2⟩
   · intro hk
     have hk1' : b.length - r1.length ≤ k := by omega
     rw [hF, (g3 k).2 hk1']
     simp only
+    rw [consumed_take b r1 k g1 hk1']
     rw [(h3 (k - (b.length - r1.length))).2 (by omega)]
     congr 3
     omega
 
+/-- the value of a scanner on the whole input is the `k = length` instance of the law -/
+theorem law_whole (F : Scan) (b : Bytes) (s : PState) (r : Bytes) (s' : PState) (l : PrefixLaw F b s r s') :
+    F b s = (some r, s') := by
+  have := (l.2.2 b.length).2 (by omega)
+  rw [List.take_length] at this
+  rw [this]
+  congr 2
+  apply List.take_of_length_le
+  have := l.1
+  omega
+
 /-- **one byte, then continue**: `F (c :: x) s = K x s.bump` -/
 theorem peek_law (F K : Scan) (c : Nat) (s : PState)
     (hF : ∀ x, F (c :: x) s = K x s.bump) (hF0 : (F [] s).2.ib = s.ib ∧ EndsEmpty (F [] s).1)
-    (cs r : Bytes) (s' : PState) (hK : K cs s.bump = (some r, s')) (lK : PrefixLaw K cs s.bump r s') :
-    F (c :: cs) s = (some r, s') ∧ PrefixLaw F (c :: cs) s r s' := by
+    (cs r : Bytes) (s' : PState) (lK : PrefixLaw K cs s.bump r s') :
+    PrefixLaw F (c :: cs) s r s' := by
   obtain ⟨k1, k2, k3⟩ := lK
-  refine ⟨by rw [hF]; exact hK, by simp; omega, by simp only [List.length_cons, bump_ib] at k2 ⊢; omega, ?_⟩
+  refine ⟨by simp; omega, by simp only [List.length_cons, bump_ib] at k2 ⊢; omega, ?_⟩
   intro k
   cases k with
   | zero =>
@@ -344,8 +366,8 @@ theorem peek_law (F K : Scan) (c : Nat) (s : PState)
 /-- **one byte, then done**: `F (c :: x) s = (some x, t)` -/
 theorem last_byte_law (F : Scan) (c : Nat) (s t : PState) (ht : t.ib = s.ib + 1)
     (hF : ∀ x, F (c :: x) s = (some x, t)) (hF0 : (F [] s).2.ib = s.ib ∧ EndsEmpty (F [] s).1) (cs : Bytes) :
-    F (c :: cs) s = (some cs, t) ∧ PrefixLaw F (c :: cs) s cs t := by
-  refine ⟨hF cs, by simp, by simp [ht], ?_⟩
+    PrefixLaw F (c :: cs) s cs t := by
+  refine ⟨by simp, by simp [ht], ?_⟩
   intro k
   cases k with
   | zero =>
@@ -360,25 +382,45 @@ theorem last_byte_law (F : Scan) (c : Nat) (s t : PState) (ht : t.ib = s.ib + 1)
     · intro hk; omega
     · intro _; congr 3; omega
 
-/-- the law only looks at `ib`: it transfers to a function that agrees on all inputs -/
-theorem law_congr (F F' : Scan) (s s0 : PState) (hib : s0.ib = s.ib) (hFF : ∀ x, F x s = F' x s0)
-    (b r : Bytes) (s' : PState) (h : F' b s0 = (some r, s') ∧ PrefixLaw F' b s0 r s') :
-    F b s = (some r, s') ∧ PrefixLaw F b s r s' := by
-  obtain ⟨h0, h1, h2, h3⟩ := h
-  refine ⟨by rw [hFF]; exact h0, h1, by rw [h2, hib], ?_⟩
+/-- the law only looks at `ib` and at the cuts of `b`: it transfers to a function that agrees
+    with `F'` on every non-empty cut and makes no progress on the empty one -/
+theorem law_congr (F F' : Scan) (s s0 : PState) (hib : s0.ib = s.ib) (b r : Bytes) (s' : PState)
+    (hFF : ∀ k, 0 < k → F (b.take k) s = F' (b.take k) s0)
+    (hF0 : (F [] s).2.ib = s.ib ∧ EndsEmpty (F [] s).1) (hF'0 : (F' [] s0).1 = none)
+    (h : PrefixLaw F' b s0 r s') : PrefixLaw F b s r s' := by
+  obtain ⟨h1, h2, h3⟩ := h
+  refine ⟨h1, by rw [h2, hib], ?_⟩
   intro k
-  rw [hFF]
-  rw [← hib]
+  cases k with
+  | zero =>
+    simp only [List.take_zero]
+    constructor
+    · intro _; exact hF0
+    · intro hk
+      have := (h3 0).2 hk
+      simp only [List.take_zero] at this
+      rw [this] at hF'0
+      cases hF'0
+  | succ k =>
+    rw [hFF _ (by omega), ← hib]
+    exact h3 (k + 1)
+
+/-- full agreement (including the empty cut) -/
+theorem law_congr_all (F F' : Scan) (s s0 : PState) (hib : s0.ib = s.ib) (b r : Bytes) (s' : PState)
+    (hFF : ∀ x, F x s = F' x s0) (h : PrefixLaw F' b s0 r s') : PrefixLaw F b s r s' := by
+  obtain ⟨h1, h2, h3⟩ := h
+  refine ⟨h1, by rw [h2, hib], ?_⟩
+  intro k
+  rw [hFF, ← hib]
   exact h3 k
 
 /-- white space as a (never failing) scanner -/
 def spaceScan : Scan := fun b s => (some (consumeSpace b s).1, (consumeSpace b s).2)
 
 theorem spaceScan_law (b : Bytes) (s : PState) :
-    spaceScan b s = (some (J.skipWs b), s.bump (b.length - (J.skipWs b).length)) ∧
     PrefixLaw spaceScan b s (J.skipWs b) (s.bump (b.length - (J.skipWs b).length)) := by
   have hle := skipWs_length_le b
-  refine ⟨by simp [spaceScan, consumeSpace_spec], hle, by simp, ?_⟩
+  refine ⟨hle, by simp, ?_⟩
   intro k
   have := consumeSpace_take b s k
   simp only at this
